@@ -1183,6 +1183,7 @@ def run_stress(desc, acc):
     acc.count('stress_order_pairs_checked', stats['order_pairs_checked'])
     acc.count('stress_deliveries_of_sends_completed_while_the_call_ran', stats['delivered_while_call_running'])
     acc.count('stress_id_collisions_among_sends', stats['id_collisions_among_sends'])
+    acc.count('stress_calls_not_judged_for_completeness_because_a_send_was_in_flight', stats.get('calls_deferred_send_in_flight', 0))
     acc.count('stress_file_bytes', os.path.getsize(path))
     # evidence that executions really overlapped: receive calls whose interval intersects a send interval
     ss = sorted((s[2], s[3]) for s in sends)
